@@ -327,11 +327,53 @@ OBSERVED = f"imaginary part {{im}}: raised={{raised}}"
             obs.append(Ob(f"C16.deriv[{hname}|n={ns}]", "finite", [EV + ":time_evolution_derivatives", EV + ":_generate_circuit_sequence"],
                           deriv_ob(hname, spec, ns),
                           f"sum_k f_k U_k^† O U_k = d/dt(U^† O U) for all t and all 16 matrix units O ({hname}, n_steps={ns})", timeout=600))
+    # ---- sum structure for ALL Hamiltonians and step counts (Engine V over abstract per-term blocks)
+    obs.append(_sum_structure_ob())
     obs.append(vprop.enum_ob("C16.native.enum", [EV + ":time_evolution_for_term", EV + ":time_evolution", EV + ":time_evolution_derivatives"],
                              lambda: [0, 1, 2], _check_native,
                              "bounded: natively, per-term circuits equal scipy expm for all strings on <=2 qubits at sample t; sum structure equals the "
                              "concatenation of per-term circuits; derivative vs finite differences (n_steps 1..3)", exhaustive=False))
     return obs
+
+
+def _sum_structure_ob():
+    import z3
+    from vfw import sym, vtypes
+    from vfw.sym import Obj, SObj, SSeq
+    BLOCK = z3.Function("per_term_circuit", Obj, z3.RealSort(), Obj)
+
+    class AbsCircuit:
+        """a circuit seen as the sequence of per-term blocks it was concatenated from"""
+
+        def __init__(self, blocks=None):
+            self.blocks = blocks if blocks is not None else SSeq(("lit", []), "list")
+
+        def __add__(self, other):
+            return AbsCircuit(SSeq(("cat", SSeq.of(self.blocks).node, SSeq.of(other.blocks).node), "list"))
+
+    def fresh_circuit(name):
+        return AbsCircuit(vtypes.mk("List[Obj:Block]", name + ".blocks"))
+
+    def term_stub(term, time):
+        return AbsCircuit(SSeq(("lit", [SObj("Block", BLOCK(sym.lift(term), sym.lift(time)))]), "list"))
+    sym.OBJ_SCHEMAS["Ham"] = {"terms": "Seq[Obj:Term]"}
+    M_ = "len(hamiltonian.terms)"
+    inner = "all(circuit.blocks[s * " + M_ + " + i] == BLK(hamiltonian.terms[i], time / n_steps) for s in range({S}) for i in range(" + M_ + "))"
+    c = vc.Contract(
+        key=EV + ":time_evolution", params={"hamiltonian": "Obj:Ham", "time": "Real", "n_steps": "Int"},
+        requires="n_steps >= 1",
+        ensures="len(result.blocks) == n_steps * " + M_ + " and " + inner.replace("circuit.", "result.").format(S="n_steps"),
+        loops={"for#0": {"invariant": "len(circuit.blocks) == k * " + M_ + " and " + inner.format(S="k"), "types": {"circuit": fresh_circuit}},
+               "for#1": {"invariant": "len(circuit.blocks) == _ * " + M_ + " + k and " + inner.format(S="_") +
+                                      " and all(circuit.blocks[_ * " + M_ + " + i] == BLK(hamiltonian.terms[i], time / n_steps) for i in range(k))",
+                         "types": {"circuit": fresh_circuit}}},
+        spec={"BLK": lambda t, x: SObj("Block", BLOCK(sym.lift(t), sym.lift(x)))},
+        doc="time_evolution(H, t, n) is, for each of the n steps in order, for each term in listed order, the per-term circuit for time t/n")
+    fb = vprop.enum_ob("x", [], lambda: [1], _check_native, "").run
+    return vprop.fn_ob("C16", c, {}, call=lambda ns, a: ns["time_evolution"](a["hamiltonian"], a["time"], "Trotter", a["n_steps"]),
+                       overrides={"Circuit": AbsCircuit}, extra_stubs=lambda: {"time_evolution_for_term": term_stub}, fallback=fb, obid="C16.sum.structure.all.contract", timeout_ms=60000,
+                       desc="for ALL Hamiltonians (any number of terms) and ALL step counts >= 1: the evolution circuit is the concatenation over steps, then over the listed terms, "
+                            "of time_evolution_for_term(term, t / n_steps) (two nested loop invariants)")
 
 
 def _replay_deriv(spec, n_steps, t):
